@@ -78,6 +78,7 @@ type LLEnv struct {
 	Cover map[string]bool
 	// KtimeLog collects the values returned by bpf_ktime_get_ns on this path.
 	KtimeLog []*Term
+	lastKt   *Term // previous symbolic clock value (the clock is non-decreasing across runs with the same env)
 }
 
 type LLReplay struct {
@@ -483,10 +484,10 @@ func (r *llRun) helper(name string, a []LLVal, ins *LLInstr) LLVal {
 			t = r.env.Now
 		} else {
 			t = r.fresh("ktime", 64)
-			if r.lastKt != nil {
-				in.assume(tc.Cmp(OpULe, r.lastKt, t))
+			if r.env.lastKt != nil {
+				in.assume(tc.Cmp(OpULe, r.env.lastKt, t))
 			}
-			r.lastKt = t
+			r.env.lastKt = t
 		}
 		r.env.KtimeLog = append(r.env.KtimeLog, t)
 		return LLVal{T: t}
